@@ -66,9 +66,13 @@ def run_program(prog, world, tmpdir):
 
 
 _CFG = {}
+_TMP = {"dir": "/var/tmp"}
 
 
 def load(scenario):
+    if scenario == "sched-gen":
+        # a generated two-episode schedule directory whose scenario has a router (the small shipped schedules have none)
+        return HE.make_schedule_dir(os.path.join(_TMP["dir"], "sched-gen-%d" % os.getpid()), episodes=2)
     if scenario in HE.SHIPPED:
         p = HE.SHIPPED[scenario]
         if os.path.isdir(p):
@@ -87,6 +91,7 @@ def main():
     job = json.load(sys.stdin)
     HE.import_env()
     tmp = tempfile.mkdtemp(prefix="c03-", dir="/var/tmp")
+    _TMP["dir"] = tmp
     try:
         # session output (only written in the logging-on worlds) goes to a scratch directory
         from primaite.session.io import PrimaiteIO
